@@ -10,7 +10,7 @@ Three ties per generated program:
   * spec-vs-native: the model side also runs Spec/Native.lean (the reference semantics of the theorems) and its final values
     are compared with the native Python run.
 """
-import json, re
+import json, random, re
 from .. import common
 from ..framework import Exploration, Violation
 from . import c09_typed as typed
@@ -40,12 +40,19 @@ ASSUMPTIONS = ["each structured program is rendered as Python source twice and e
                "counterpart in the model line",
                "the typed generator uses tracked booleans as booleans wherever they are in scope, also after blocks, in the later arms of a chain, in loop "
                "bodies and in loop/break conditions (a selection between two booleans is a boolean: repaired finding C09-boolean-demoted, fixed program "
-               "BOOL_PROBE, C09_boolean_kept_regression); it compares integers with integers only, and keeps list lengths fixed "
-               "(if_then_else zips lists: a length change is silently truncated; the model stops with UNMODELLED there)"]
+               "BOOL_PROBE, C09_boolean_kept_regression); it compares integers with integers only, and keeps list lengths fixed",
+               "list lengths: a selection between lists of different lengths — in particular a block, a loop round, a later arm or a nested block that "
+               "rebinds a tracked list (replaces a row of a list of lists) by one of another length — can not be expressed by an element-wise merge: "
+               "the library must REFUSE it (ValueError raised by if_then_else before anything is merged; repaired finding C09-list-length-truncated, "
+               "C09_length_mismatch_refused), where native Python simply rebinds.  The stream `lenchange` (typed.gen_lenchange: 18 shapes, a short "
+               "typed program that ends with one such statement; its own random stream, appended after the other programs) and the fixed probe LEN "
+               "expect exactly that refusal on every input vector; a run that completes instead (the old zip() truncation to min(len)) is a violation, "
+               "with the native twin's value next to the truncated one; the model raises the same error at the same point (correspondence on the status)"]
 PARTIAL = [{"theorem": "C09_refines", "excludes": "nothing inside the statement language (tracked variables of integer, boolean, fixed-point and nested-list kind, mixed-kind "
             "merges, element assignment, value-level and thunked selection, if/elif/else, for, while, any nesting, all values): when the traced run completes "
-            "(the library's own range/usage checks, and the model's UNMODELLED stops for operand kinds on which the library itself deviates from Python — "
-            "LinComb < LinCombFxp, fixed point times fixed point — and for merges of lists of different lengths, are what makes a run fail) and the initial "
+            "(the library's own range/usage checks — including the refusal, ValueError, of a selection between lists of different lengths, which is what a block "
+            "that rebinds a tracked list to another length runs into — and the model's UNMODELLED stops for operand kinds on which the library itself deviates "
+            "from Python — LinComb < LinCombFxp, fixed point times fixed point — are what makes a run fail) and the initial "
             "fixed-point values are multiples of 2^-resolution, the native run does not fail and, unless it reaches a for loop whose bound is outside 0..max, "
             "ends with the same variables standing for the same numbers"},
            {"theorem": "C09_refines_int", "excludes": "corollary for integer variables and inputs"},
@@ -56,6 +63,16 @@ PARTIAL = [{"theorem": "C09_refines", "excludes": "nothing inside the statement 
            {"theorem": "C09_kind_kept", "excludes": "nothing for variables holding secrets (every tracked variable of the statement language does): a variable that a statement "
             "or block does not assign keeps its types (LinComb / LinCombBool / LinCombFxp, lists element-wise), whatever the guard is and wherever the conditions go; "
             "C09_boolean_usable: hence a tracked boolean is accepted as the condition of a later block; variables assigned inside an arm take the kind of the merge"},
+           {"theorem": "C09_length_mismatch_refused", "excludes": "nothing: if_then_else on two lists of different lengths raises ValueError for every condition, "
+            "elements, state and guard, before anything is merged; C09_length_mismatch_refused_sel: the statement `_.x = if_then_else(c, t, f)`; "
+            "C09_length_mismatch_refused_exit: BranchContext.exit() when the arm / loop round rebound a tracked list to another length (stated for the first "
+            "variable of the dictionary in the first arm of a context, all variables bound before the block; the closed runs of C09_length_mismatch_regression "
+            "cover later arms, loops, lazily evaluated branches and rows of nested lists)"},
+           {"theorem": "C09_never_truncated", "excludes": "nothing: a selection that completes returns a value with the list structure (every length at every nesting "
+            "depth) of both operands; C09_never_truncated_exit: the same for every variable merged with its snapshot at a block exit"},
+           {"theorem": "C09_length_mismatch_regression", "excludes": "closed regression runs of the repaired finding C09-list-length-truncated: block, loop round "
+            "(also with bound 0), value-level and thunked selection, a row of a list of lists — all refused with ValueError whichever way the condition goes, "
+            "native values listed; the same block with a list of the same length completes with the native values"},
            {"theorem": "C09_sat", "excludes": "nothing (any prime modulus, any bit length and resolution, run started without a guard)"},
            {"theorem": "C09_oblivious", "excludes": "nothing (two completed runs from states of the same shape, initial values of the same shape)"},
            {"theorem": "C09_cex_negative_bound", "excludes": "closed counterexample: a negative secret bound runs max rounds where range(bound) runs none"},
@@ -514,7 +531,9 @@ def explore(ctx, extended=False, focus=None):
                "if/elif/else chains (1-4 arms), variables first bound inside every arm of an if/elif/else (nested), for loops with a secret bound capped "
                "by a public maximum, while loops (cap 0-3) with optional break conditions, lazily evaluated selections, secret-vs-secret and "
                "reflected comparisons, `_range` objects bound to a name and iterated by nested and sequential loops, nested to depth 3, plus fixed nesting "
-               "templates (while-in-for, for-in-if, elif chain, aliasing, shared range); 8 % malformed "
+               "templates (while-in-for, for-in-if, elif chain, aliasing, shared range); after these a stream of max(18, n/12) programs that end with a selection "
+               "between lists of different lengths (18 shapes: block, else/elif arm, loop round, nested, value-level and thunked selection, rows, aliasing), "
+               "which must be refused with ValueError on all three input vectors and by the model; 8 % malformed "
                "and 5 % out-of-cap programs compared model-vs-code only; each valid program executed with the library's constructs and with native "
                "control flow, twice with different inputs to compare the number of constraints, and by the Lean model (values, constraints, "
                "witness); distinct = distinct program texts; non-trivial = has a block")
@@ -532,6 +551,14 @@ def explore(ctx, extended=False, focus=None):
             progs_.append(p)
         else:
             progs_.append(gen_prog(ctx.rnd, "malformed" if r < 0.36 else "uncapped" if r < 0.40 else "valid"))
+    # selections between lists of different lengths (to be refused): own random stream, after everything else, so that the
+    # programs and twins above are what they were before this stream existed
+    lrnd = random.Random(ctx.seed * 7919 + 9 + (1 if extended else 0))
+    nlen = max(len(typed.LEN_FORMS), n // 12)
+    for k in range(nlen):
+        p = typed.gen_lenchange(lrnd, typed.LEN_FORMS[k] if k < len(typed.LEN_FORMS) else None)      # every shape at least once
+        fix_for_bounds(p, lrnd)
+        progs_.append(p)
     lines = [f"B|b{i}|16|{json.dumps(p)}" for i, p in enumerate(progs_)]
     # the same program text on two more vectors of secret values (inputs and initial values re-drawn, so conditions flip and
     # branch values coincide or not): the constraint system and the wire expression of every final variable must not change
@@ -567,19 +594,30 @@ def explore(ctx, extended=False, focus=None):
                                        f"control flow completes and the model runs ({bmodel['status']}): the merge at a block exit must return a LinCombBool "
                                        f"for a tracked LinCombBool (if_then_else on two booleans)",
                                        {"program": BOOL_PROBE}))
-    # a block that rebinds a tracked list to a list of another length: the element-wise merge zips to the shorter one
+    # a block that rebinds a tracked list to a list of another length (fixed replay of the repaired finding C09-list-length-truncated):
+    # the merge at the block exit must refuse (ValueError) whichever way the condition goes; a run that completes zipped the lists
     LEN_PROBE = "LEN"
     lp = common.run_workers([f"B|lenprobe|16|{json.dumps(LEN_PROBE)}"], script="worker_block.py")[0].split("|", 1)[1]
     try:
         lpd = json.loads(lp)
     except Exception:
         lpd = {}
-    if lpd.get("taken") is not None:
-        ex.count(f"list-length-change:taken={lpd.get('taken')}")
-        if lpd.get("taken") != [7, 8, 9]:
-            ex.violations.append(Violation({"dev": "wrong-value", "feature": "list-length-change"},
-                                           f"`if c: l = [7, 8, 9]` on a tracked list of two elements ends with {lpd.get('taken')} for c = 1 (native [7, 8, 9]): "
-                                           f"the merge zips the two lists and silently truncates", {"probe": "LEN", "observed": lpd}))
+    if "harness-error" in lpd or "taken" not in lpd:
+        raise common.Infra("LEN probe: " + str(lpd)[:300])
+    for way, native in (("taken", [7, 8, 9]), ("not_taken", [1, 2])):
+        got = lpd.get(way)
+        ex.count(f"list-length-change:{way}={got.get('error') if isinstance(got, dict) else got}")
+        if isinstance(got, dict) and got.get("error") == "ValueError":
+            continue
+        if isinstance(got, dict):
+            ex.violations.append(Violation({"dev": "raises", "error": got.get("error"), "feature": "list-length-change"},
+                                           f"`if c: l = [7, 8, 9]` on a tracked list of two elements raises {got.get('error')} ({got.get('msg')}), not the "
+                                           f"documented ValueError of a selection between lists of different lengths", {"probe": "LEN", "observed": lpd}))
+        else:
+            ex.violations.append(Violation({"dev": "wrong-value" if got != native else "not-refused", "feature": "list-length-change"},
+                                           f"`if c: l = [7, 8, 9]` on a tracked list of two elements ends with {got} for c = {1 if way == 'taken' else 0} "
+                                           f"(native {native}) instead of being refused with ValueError: the merge zips the two lists and silently truncates",
+                                           {"probe": "LEN", "observed": lpd}))
     if probe.get("api", {}).get("status") != "RuntimeError":
         ex.notes.append(f"a raw LinComb block condition is no longer rejected: {probe.get('api')}")
     for i, (p, o) in enumerate(zip(progs_, outs)):
@@ -624,6 +662,28 @@ def explore(ctx, extended=False, focus=None):
                     ex.disagreements.append({"case": model_line(f"b{i}", p), "diff": [("N", f"Spec/Native={m['NAT'][:120]} python={want[:120]}")]})
             if m.get("NAT") == "uncapped":
                 ex.count("spec-native:uncapped-loop-reached")
+        # ---- a selection between lists of different lengths must be refused (on every input vector), never merged
+        if p["stream"] == "lenchange":
+            for who, nx, ax, pq in [("", nat, api, p)] + [(f" (input vector #{j + 2})", x.get("native", {}), x.get("api", {}), twins[NTW * i + j]) for j, x in enumerate(d2s)]:
+                lsig = {"feature": "list-length-change", "stream": "lenchange"}
+                lrep = dict(rep, program=pq, lenform=p.get("lenform"))
+                if nx.get("status") != "ok":
+                    ex.count("length-change:native-" + str(nx.get("status")))       # (not generated: the native twin completes)
+                elif ax.get("status") == "ValueError" and "lists of different lengths" in ax.get("msg", ""):
+                    ex.count("length-change:refused")
+                elif ax.get("status") == "ValueError" and re.search(r"is not a \d+-bit integer", ax.get("msg", "")):
+                    ex.count("out-of-domain:comparison-operand-exceeds-bitlength")
+                elif ax.get("status") == "ok":
+                    bad = [k for k, v in nx["num"].items() if ax["num"].get(k) != v]
+                    ex.violations.append(Violation(dict(lsig, dev="wrong-value" if bad else "not-refused"),
+                                                   f"a selection between lists of different lengths ({p.get('lenform')}) is merged instead of refused" + who +
+                                                   (f": variable {bad[0]} ends as {ax['num'].get(bad[0])}, native {nx['num'][bad[0]]} (zip() keeps min(len) elements)"
+                                                    if bad else ": the values happen to be the native ones on this input"), lrep))
+                else:
+                    ex.violations.append(Violation(dict(lsig, dev="raises", error=ax.get("status")),
+                                                   f"a selection between lists of different lengths ({p.get('lenform')}) raises {ax.get('status')} "
+                                                   f"({ax.get('msg', '')[:80]}), not the ValueError of the length check" + who, lrep))
+            continue
         # ---- direct oracle: only for programs inside the documented domain
         if p["stream"] not in ("valid", "typed") and p.get("feature") != "negative-for-bound":
             continue
@@ -705,6 +765,13 @@ def replay(ctx, payload):
         print("correspondence disagreement; model line:", payload["correspondence_disagreements"][0].get("case"))
         ml = payload["correspondence_disagreements"][0]["case"]
         print("model:", common.lean_driver([ml])[0][:3000])
+        return 0
+    if prog is None and rp.get("probe") == "LEN":
+        # the fixed program of the repaired finding C09-list-length-truncated (worker_block.py runs it on the real code both ways)
+        print("impl :", common.run_workers([f"B|r|16|{json.dumps('LEN')}"], script="worker_block.py")[0][:3000])
+        for c in (1, 0):
+            ml = f"BL|r{c}|p={common.BN128},bl=16|0 [ i1 i2 ]|{c}||{{ I eq i0 c1 {{ A v0 [ + i0 c6 + i0 c7 + i0 c8 ] }} E }}"
+            print(f"model (c = {c}):", common.lean_driver([ml])[0][:3000])
         return 0
     line = f"B|r|16|{json.dumps(prog)}"
     print("impl :", common.run_workers([line], script="worker_block.py")[0][:3000])
